@@ -208,6 +208,20 @@ C08_SaveStep ==
   /\ Check("C08", "negative save accepted / non-negative save rejected",
            (chk.kind = "save" /\ chk.nxerr \in {"", E_NegAmount}) => ((chk.nxerr = E_NegAmount => ObsIs(E_NegAmount)) /\ (chk.obsst = E_NegAmount => chk.nxerr = E_NegAmount)))
 
+\* ... and what a save reserved stays where it is: replaying the postings of a later send on the balances the statement
+\* started from (starting balances, earlier observed postings, earlier saves by the reservation formula) never takes an
+\* account below the lower of that balance and minus the largest overdraft the script grants it - the replay bound of
+\* C01, statement by statement, on the REDUCED balance (independent of the drawing semantics)
+RECURSIVE ReplayFrom(_,_,_)
+ReplayFrom(pre, vis, ps) ==
+  IF ps = <<>> THEN TRUE
+  ELSE LET p == Head(ps)  v2 == ApplyPost(vis, << p >>) IN
+       /\ (p[1] \in Exempt \/ Get(v2, <<p[1], p[4]>>) >= Min(Get(pre, <<p[1], p[4]>>), 0 - MaxOf(Grants(p[1], p[4]))))
+       /\ ReplayFrom(pre, v2, Tail(ps))
+C08_Reserved ==
+  Check("C08", "a statement after a save moved funds the save had reserved (replay of its postings on the balances reduced by the saved amounts goes below the floor)",
+        (chk.kind = "send" /\ ObsOk /\ ~chk.huge /\ env.err = "" /\ (\E j \in 1..(si - 2) : C.stmts[j].k = "save")) => ReplayFrom(chk.pre, chk.pre, chk.obs))
+
 \* ---- never a panic, atomic failure (oracle-free part of C12)
 C12_NoPanic ==
   /\ Check("C12", "panic", chk.obsst # "panic")
